@@ -422,6 +422,69 @@ Proof.
   split; [exact ex_lu_decomp|]. split; [exact ex_lu2_diag|exact ex_solve_lu].
 Qed.
 
+(* the same with Higham's constant gam (3n)  (3 gam n + gam n^2 <= gam (3n), Lemma 3.3), for 3 n u < 1 *)
+Theorem solve_lu_backward_error_gam3n : forall (u : R), (0 <= u < 1)%R ->
+  forall (fadd fsub fmul fdiv : R -> R -> R),
+  (forall x y : R, exists d : R, (Rabs d <= u)%R /\ fadd x y = ((x + y) * (1 + d))%R) ->
+  (forall x y : R, exists d : R, (Rabs d <= u)%R /\ fsub x y = ((x - y) * (1 + d))%R) ->
+  (forall x y : R, exists d : R, (Rabs d <= u)%R /\ fmul x y = (x * y * (1 + d))%R) ->
+  (forall x y : R, y <> 0%R -> exists d : R, (Rabs d <= u)%R /\ fdiv x y = (x / y * (1 + d))%R) ->
+  (forall a b : R, fadd 0%R (fmul a b) = fmul a b) ->
+  forall (m lu perm : matrix (ARm fadd fsub fmul fdiv)) (piv : nat) (b x : list R),
+  Proofs.Matrix.wf m -> (INR (3 * rows m) * u < 1)%R ->
+  lu_decomp m = Ok (lu, piv, perm) ->
+  (forall k, (k < rows m)%nat -> rentry fadd fsub fmul fdiv lu k k <> 0%R) ->
+  solve_lu m b = Ok x ->
+  length x = rows m /\
+  exists tau : nat -> nat,
+    (forall r, (r < rows m)%nat -> (tau r < rows m)%nat) /\
+    (forall r r', (r < rows m)%nat -> (r' < rows m)%nat -> tau r = tau r' -> r = r') /\
+    exists (dA : nat -> nat -> R) (db : nat -> R),
+      (forall i c, (i < rows m)%nat -> (c < rows m)%nat ->
+         (Rabs (dA i c) <= gam u (3 * rows m)
+                           * Rsum (rows m) (fun k => Rabs (tril1 fadd fsub fmul fdiv lu i k)
+                                                     * Rabs (triu fadd fsub fmul fdiv lu k c)))%R) /\
+      (forall i, (i < rows m)%nat -> (Rabs (db i) <= gam u (rows m) * Rabs (nth (tau i) b 0))%R) /\
+      (forall i, (i < rows m)%nat ->
+         Rsum (rows m) (fun c => ((rentry fadd fsub fmul fdiv m (tau i) c + dA i c) * nth c x 0)%R)
+         = (nth (tau i) b 0 + db i)%R).
+Proof. intros u Hu fadd fsub fmul fdiv Ha Hs Hm Hd H0 m lu perm piv b x. exact (solve_lu_backward_error_gam3n_lemma u Hu fadd fsub fmul fdiv Ha Hs Hm Hd H0 m lu perm piv b x). Qed.
+Check solve_lu_backward_error_gam3n : forall (u : R), (0 <= u < 1)%R ->
+  forall (fadd fsub fmul fdiv : R -> R -> R),
+  (forall x y : R, exists d : R, (Rabs d <= u)%R /\ fadd x y = ((x + y) * (1 + d))%R) ->
+  (forall x y : R, exists d : R, (Rabs d <= u)%R /\ fsub x y = ((x - y) * (1 + d))%R) ->
+  (forall x y : R, exists d : R, (Rabs d <= u)%R /\ fmul x y = (x * y * (1 + d))%R) ->
+  (forall x y : R, y <> 0%R -> exists d : R, (Rabs d <= u)%R /\ fdiv x y = (x / y * (1 + d))%R) ->
+  (forall a b : R, fadd 0%R (fmul a b) = fmul a b) ->
+  forall (m lu perm : matrix (ARm fadd fsub fmul fdiv)) (piv : nat) (b x : list R),
+  Proofs.Matrix.wf m -> (INR (3 * rows m) * u < 1)%R ->
+  lu_decomp m = Ok (lu, piv, perm) ->
+  (forall k, (k < rows m)%nat -> rentry fadd fsub fmul fdiv lu k k <> 0%R) ->
+  solve_lu m b = Ok x ->
+  length x = rows m /\
+  exists tau : nat -> nat,
+    (forall r, (r < rows m)%nat -> (tau r < rows m)%nat) /\
+    (forall r r', (r < rows m)%nat -> (r' < rows m)%nat -> tau r = tau r' -> r = r') /\
+    exists (dA : nat -> nat -> R) (db : nat -> R),
+      (forall i c, (i < rows m)%nat -> (c < rows m)%nat ->
+         (Rabs (dA i c) <= gam u (3 * rows m)
+                           * Rsum (rows m) (fun k => Rabs (tril1 fadd fsub fmul fdiv lu i k)
+                                                     * Rabs (triu fadd fsub fmul fdiv lu k c)))%R) /\
+      (forall i, (i < rows m)%nat -> (Rabs (db i) <= gam u (rows m) * Rabs (nth (tau i) b 0))%R) /\
+      (forall i, (i < rows m)%nat ->
+         Rsum (rows m) (fun c => ((rentry fadd fsub fmul fdiv m (tau i) c + dA i c) * nth c x 0)%R)
+         = (nth (tau i) b 0 + db i)%R).
+Print Assumptions solve_lu_backward_error_gam3n.
+Example solve_lu_backward_error_gam3n_nonvacuous :   (* the instance of solve_lu_backward_error_nonvacuous; 6 u < 1 *)
+  (0 <= ux < 1)%R /\ Proofs.Matrix.wf ex_m2 /\ (INR (3 * rows ex_m2) * ux < 1)%R /\
+  lu_decomp ex_m2 = Ok (ex_lu2, 0%nat, ex_id2) /\
+  (forall k, (k < rows ex_m2)%nat -> rentry xadd xsub xmul xdiv ex_lu2 k k <> 0%R) /\
+  exists x, solve_lu ex_m2 ex_b2 = Ok x.
+Proof.
+  split; [exact ux_range|]. split; [reflexivity|]. split; [cbn; pose proof ux_small; lra|].
+  split; [exact ex_lu_decomp|]. split; [exact ex_lu2_diag|exact ex_solve_lu].
+Qed.
+
 (* ---------- Props/pending/C02_round.v.txt ---------- *)
 (* ======================================================================================================
    C02 (determinant and inverse), rounding half -- package round.  Append to Props/C02.v.
